@@ -1399,7 +1399,18 @@ class _Flattener:
         var_attrs = self.attrs(var)
         for name in referencing_attributes.intersection(var_attrs):
             # Parse attribute value
-            parsed_attribute = parse_attribute(name, var_attrs[name])
+            try:
+                parsed_attribute = parse_attribute(name, var_attrs[name])
+            except AttributeParsingException:
+                if self._strict:
+                    raise
+
+                # Leave an attribute that can not be parsed as it is
+                warnings.warn(
+                    f"Can't parse the {name!r} attribute of {self.name(var)!r}: "
+                    f"{var_attrs[name]!r}"
+                )
+                continue
 
             # Resolved references in parsed as required by attribute
             # properties
@@ -1448,7 +1459,14 @@ class _Flattener:
         for name in referencing_attributes.intersection(var_attrs):
             # Parse attribute value
             value = var_attrs[name]
-            parsed_attribute = parse_attribute(name, value)
+            try:
+                parsed_attribute = parse_attribute(name, value)
+            except AttributeParsingException:
+                if self._strict:
+                    raise
+
+                # Leave an attribute that can not be parsed as it is
+                continue
 
             adapted_parsed_attr = {}
 
